@@ -27,6 +27,8 @@ ASSUMPTIONS = [
     "ruff is replaced by an identity stand-in when the plugin formats its output",
 ]
 FLOORS = {"quick": {"pairs": 225, "sites_checked": 4000}, "thorough": {"pairs": 1600, "sites_checked": 30000}}
+ANCHORS = ['Message._type_hints', 'Message._cls_for']
+PLUGIN_ANCHORS = ['get_type_reference', 'parse_source_type_name', 'reference_cousin', 'reference_ancestor', 'reference_descendent', 'reference_sibling', 'reference_absolute']
 CONTRACTS = []
 KINDS = [("msg", "Target"), ("nested", "Target.Inner"), ("enum", "Kind"), ("nested_enum", "Target.Mode")]
 WKT = [("ts", "google.protobuf.Timestamp"), ("du", "google.protobuf.Duration"), ("empty", "google.protobuf.Empty"),
@@ -266,6 +268,7 @@ def run_pair(p, q, res: Result):
                 res.violation("generate", ["plugin-failed", rel, "-"], f"{p}->{q}: {e.detail[-800:]}", w)
             return
         b.load_descriptors()
+        res.extra["plugin_reach"] = sorted(set(res.extra.get("plugin_reach", [])) | set(b.plugin_reach()))[:400]
         try:
             b.import_all()
         except BuildError as e:
